@@ -156,25 +156,28 @@ class forced_encoding:
             setattr(mod, attr, old)
 
 
-UNAVAILABLE = "harness-hook-unavailable"
-
-
 def e2e_segment(buf, enc, mode):
-    """The REAL find_key closure inside Input._send: preload unprocessed_bytes, call send() while bytes remain.
-    -> list of keys, or the exception kind; UNAVAILABLE when Input no longer keeps its pending bytes in a list
-    attribute `unprocessed_bytes` (then the burst family, which uses only the public interface, stands alone)"""
-    inp = cinput.Input(in_stream=None, keynames=MODES[mode], paste_threshold=None, sigint_event=False)
-    if not isinstance(getattr(inp, "unprocessed_bytes", None), list):
-        return UNAVAILABLE
-    inp.unprocessed_bytes = [B[b] for b in buf]
+    """The REAL find_key closure inside Input._send, through the public interface only: hand the bytes to
+    Input.unget_bytes() ("bytes from an in_stream read not initiated by this Input object"), then call send(0) on an
+    empty pipe until it reports nothing more.  -> list of keys (bytes naming: the keys ARE the consumed pieces), with
+    the exception kind appended if send() raised"""
+    import os
+    r, w = os.pipe()
     out = []
-    with forced_encoding(enc):
-        try:
-            while inp.unprocessed_bytes:
-                n = len(inp.unprocessed_bytes)
-                out.append((inp.send(0), n - len(inp.unprocessed_bytes)))
-        except Exception as e:  # noqa: BLE001
-            return exc_kind(e)
+    try:
+        inp = cinput.Input(in_stream=_FdStream(r), keynames=MODES[mode], paste_threshold=None, sigint_event=False)
+        with forced_encoding(enc):
+            inp.unget_bytes(bytes(buf))
+            for _ in range(len(buf) + 2):
+                e = inp.send(0)
+                if e is None:
+                    break
+                out.append(e)
+    except Exception as e:  # noqa: BLE001
+        out.append(exc_kind(e))
+    finally:
+        os.close(r)
+        os.close(w)
     return out
 
 
